@@ -146,7 +146,9 @@ class CacheModel:
         for ident, ttl, flush in eff:
             if flush:
                 for other, (c, t) in before.items():
-                    if other[:3] == ident[:3] and other not in in_dgram and now - c > 1000:
+                    # a record whose lifetime has already ended (it only waits to be purged) is no longer a cached record: the
+                    # flush must leave it alone rather than give it another second (F31)
+                    if other[:3] == ident[:3] and other not in in_dgram and now - c > 1000 and c + 1000 * t > now:
                         flushed.add(other)
         for other in flushed:
             state_first[other] = (now, 1)
@@ -481,6 +483,8 @@ class Run:
                     if other[:3] == ident[:3] and other != ident and 998.5 <= now - c <= 1001.5:
                         st['exact_1000'] = st.get('exact_1000', 0) + (1 if now - c == 1000 else 0)
                         st['boundary_flush'] += 1
+                    if other[:3] == ident[:3] and other != ident and now - c > 1000 and c + 1000 * t <= now:
+                        st['flush_over_expired'] = st.get('flush_over_expired', 0) + 1
         if len(kinds) >= 2:
             st['multi_kind_dgram'] += 1
 
